@@ -31,8 +31,8 @@ PROPERTY = {
     "timeout": 900,
     "kani": [
         Harness("c08_write_type_from", "C08.error_frame.write_type_table", "PROVED-C", "WriteType::from: the 8 protocol strings map to their variants (the leaf the Verus unit assumes)", crate="scylla-cql-core", functions=["scylla-cql-core/src/frame/response/error.rs:<WriteType as From<&str>>::from"]),
-        Harness("c08_body_extensions_tracing", "C08.body_extensions.tracing", "BOUNDED", "parse_response_body_extensions with/without TRACING on every body of 0..=18 bytes: Ok iff the 16-byte trace id is there; trace id / rest exact; never a panic", bound="body <= 18 bytes", crate="scylla-cql", functions=["scylla-cql/src/frame/mod.rs:parse_response_body_extensions", "scylla-cql/src/frame/types.rs:read_uuid"]),
-        Harness("c08_body_extensions_compression_not_negotiated", "C08.body_extensions.compression_flag", "BOUNDED", "COMPRESSION flag without negotiated compression => Err for any body", bound="body <= 4 bytes", crate="scylla-cql", functions=["scylla-cql/src/frame/mod.rs:parse_response_body_extensions"]),
+        Harness("c08_body_extensions_tracing", "C08.body_extensions.tracing", "BOUNDED", "parse_response_body_extensions with/without TRACING on every body of 0..=18 bytes: Ok iff the 16-byte trace id is there; trace id / rest exact; never a panic", bound="body <= 18 bytes", crate="scylla-cql", tier="thorough", timeout=3000, functions=["scylla-cql/src/frame/mod.rs:parse_response_body_extensions", "scylla-cql/src/frame/types.rs:read_uuid"]),
+        Harness("c08_body_extensions_compression_not_negotiated", "C08.body_extensions.compression_flag", "BOUNDED", "COMPRESSION flag without negotiated compression => Err for any body", bound="body <= 4 bytes", crate="scylla-cql", tier="thorough", timeout=3000, functions=["scylla-cql/src/frame/mod.rs:parse_response_body_extensions"]),
         Harness("c08_twin_read_value", "C08.twin.read_value", "BOUNDED", "read_value on every input of <= 8 bytes: exact result, never past the end", bound="input <= 8 bytes", crate="scylla-cql-core", twin=True, functions=[F + "read_value"]),
         Harness("c08_twin_read_bytes_opt_and_short_bytes", "C08.twin.read_bytes_opt", "BOUNDED", "read_bytes_opt / read_short_bytes / read_int_length on every input of <= 8 bytes", bound="input <= 8 bytes", crate="scylla-cql-core", twin=True, functions=[F + "read_bytes_opt", F + "read_short_bytes", F + "read_int_length"]),
     ],
